@@ -252,6 +252,28 @@ class Session:
             if out.ok:
                 self.results[sid] = out.value
             return out
+        if op == "retry_repaired":
+            # The caller submits an input whose innermost member is unconvertible (the call is
+            # rightly refused), repairs that member *in place* and submits the very same object
+            # again: whatever the refused call left behind (identity-keyed or not) must not matter.
+            x = self.V(step["x"])
+            inner = x
+            for key in step["path"]:
+                inner = inner[key]
+            good = inner[step["field"]]
+            inner[step["field"]] = self.V(step["bad"])
+            T = self.T(step)
+            first = self.guarded(self.call, step, typelib.unmarshal, T, x)
+            inner[step["field"]] = good
+            second = self.guarded(self.call, step, typelib.unmarshal, T, x)
+            self.retry = (first, second)
+            self.inputs[sid] = x
+            if not first.ok:
+                self.faults["refused_then_repaired"] += 1
+                self.fault_fired_before = True
+            if second.ok:
+                self.results[sid] = second.value
+            return second
         if op == "unmarshal":
             try:
                 x = self.V(step["x"])
